@@ -50,13 +50,20 @@ type scen struct {
 	// Anchors: the first page also has five anchors and --max-hops is 1: the postprocessor feeds the outlinks
 	// downstream one by one, more of them than the finisher's input holds
 	Anchors bool `json:"anchors,omitempty"`
-	P       int  `json:"p"`
+	// PauseAny: the controller's pause is a thread that by default runs after the drain, like the stop request: one
+	// deviation moves it to any step of the run (a worker inside the fetching of a page's assets, a fetch waiting
+	// for its rate-limiter token, ...). The first page has three assets on its host (limiter: two tokens, one per second)
+	PauseAny bool `json:"pause_any,omitempty"`
+	P        int  `json:"p"`
 }
 
 func (s *scen) name() string {
 	o := s.Opt
 	if s.Anchors {
 		return fmt.Sprintf("seeds=%d w%d a%d paused=%v page-with-anchors max-hops=1", s.Seeds, o.Workers, o.MaxConcurrentAssets, s.Paused)
+	}
+	if s.PauseAny {
+		return fmt.Sprintf("seeds=%d w%d a%d limiter=%v three assets, paused at any step", s.Seeds, o.Workers, o.MaxConcurrentAssets, o.RateLimit)
 	}
 	if o.SlowSourceMs > 0 {
 		return fmt.Sprintf("seeds=%d w%d a%d slow-source=%dms", s.Seeds, o.Workers, o.MaxConcurrentAssets, o.SlowSourceMs)
@@ -75,12 +82,14 @@ func seenName(o world.Options) string {
 }
 
 type obs struct {
-	mu           hkit.Mutex
-	stopReturned bool
-	stopStep     int
-	gaugesAtStop [3]uint64
-	inserted     int       // seeds the reactor accepted
-	totals0      [2]uint64 // URLs crawled / seeds finished totals when the execution began (the stats singleton lives on)
+	mu            hkit.Mutex
+	stopReturned  bool
+	stopRequested bool // plain word: only read and written between scheduling points
+	stopStep      int
+	gaugesAtStop  [3]uint64
+	inserted      int       // seeds the reactor accepted
+	totals0       [2]uint64 // URLs crawled / seeds finished totals when the execution began (the stats singleton lives on)
+	codes0        map[string]uint64
 }
 
 func site() world.SiteDef { return siteWith(false, false) }
@@ -101,7 +110,7 @@ func siteBase() world.SiteDef {
 	return world.SiteDef{Name: "two pages", Seeds: []string{H + "/p1", H + "/p2", H + "/q1", H + "/q2"}, Nodes: []world.Node{
 		{URL: H + "/p1", Kind: "html", Refs: []string{H + "/a.png", H + "/flaky.png"}}, {URL: H + "/a.png", Kind: "bin"},
 		{URL: H + "/flaky.png", Kind: "flaky", FailN: 1},
-		{URL: H + "/p2", Kind: "redirect", Location: H + "/p3"}, {URL: H + "/p3", Kind: "html", Refs: []string{H + "/b.png"}}, {URL: H + "/b.png", Kind: "bin"},
+		{URL: H + "/p2", Kind: "redirect", Location: H + "/p3"}, {URL: H + "/p3", Kind: "html", Refs: []string{H + "/b.png", H + "/a.png"}}, {URL: H + "/b.png", Kind: "bin"},
 	}}
 }
 
@@ -110,6 +119,10 @@ func scenario(s *scen) *vsched.Scenario {
 	var o *obs
 	sc := &vsched.Scenario{Name: s.name()}
 	d := siteWith(s.Broken, s.Anchors)
+	if s.PauseAny {
+		d.Nodes[0].Refs = append(d.Nodes[0].Refs, H+"/c.png")
+		d.Nodes = append(d.Nodes, world.Node{URL: H + "/c.png", Kind: "bin"})
+	}
 	d.Seeds = d.Seeds[:s.Seeds]
 	sc.Setup = func(x *vsched.Exec) {
 		opt := s.Opt
@@ -121,6 +134,7 @@ func scenario(s *scen) *vsched.Scenario {
 		w = world.New(opt, d.Build())
 		o = &obs{}
 		o.totals0[0], o.totals0[1] = stats.VerifTotals()
+		o.codes0 = stats.VerifCodeTotals()
 		x.Data = o
 		if s.DiskFull {
 			watchers.VerifC14Reset()
@@ -135,7 +149,7 @@ func scenario(s *scen) *vsched.Scenario {
 		w.Start()
 		need := 4 * s.Opt.Workers
 		vsched.Block("h:wait until every stage worker has subscribed", nil, func() bool { return pause.VerifSubscribers() >= need })
-		if s.Paused {
+		if s.Paused && !s.PauseAny {
 			go func() { pause.Pause("verif: paused for good") }()
 		}
 		w.Feeders.Add(1)
@@ -154,11 +168,20 @@ func scenario(s *scen) *vsched.Scenario {
 			os.MkdirAll(w.JobDir(), 0o755)
 			go watchers.WatchDiskSpace(w.JobDir(), 5*time.Second)
 		}
+		if s.PauseAny {
+			go func() {
+				vsched.Point("h:pause requested", nil)
+				if !o.stopRequested {
+					pause.Pause("verif: paused for good")
+				}
+			}()
+		}
 		go func() { // stop request: by default it comes after the drain, every deviation moves it earlier
 			if s.DiskFull {
 				time.Sleep(7 * time.Second) // the watchdog's first tick (5 s) has paused the pipeline by then
 			}
 			vsched.Point("h:stop requested", nil)
+			o.stopRequested = true
 			if a, b, c := stats.VerifRoutines(); true {
 				// every stage worker is alive at this moment (they all subscribed before the feeder started and none
 				// exits before a stop): each gauge must read the worker count, paused or not
@@ -206,6 +229,31 @@ func scenario(s *scen) *vsched.Scenario {
 			if int(urls-o.totals0[0]) != len(distinct) {
 				return fmt.Errorf("urls-crawled-total-differs: %d URLs were requested, the total counted %d", len(distinct), urls-o.totals0[0])
 			}
+			// per-status-code counts: one per URL whose (last) response was taken in whole (the stop
+			// sequence waits for every fetch that has begun); a body that breaks is not counted
+			if !s.Broken {
+				want := map[string]uint64{}
+				last := map[string]int{}
+				for _, f := range w.Log {
+					last[f.URL] = f.Status // an answer that was retried is not counted; no URL of these sites fails for good
+				}
+				for _, st := range last {
+					if st > 0 {
+						want[fmt.Sprint(st)]++
+					}
+				}
+				got := stats.VerifCodeTotals()
+				for c, n := range got {
+					if d := n - o.codes0[c]; d != want[c] {
+						return fmt.Errorf("status-code-count-differs: %d responses with status %s were received, the per-code total counted %d (async-warc=%v)", want[c], c, d, s.Opt.AsyncWARC)
+					}
+				}
+				for c, n := range want {
+					if _, ok := got[c]; !ok && n > 0 {
+						return fmt.Errorf("status-code-count-differs: %d responses with status %s were received, the per-code total has no entry for it (async-warc=%v)", n, c, s.Opt.AsyncWARC)
+					}
+				}
+			}
 			return nil
 		}
 		if !o.stopReturned {
@@ -213,6 +261,16 @@ func scenario(s *scen) *vsched.Scenario {
 		}
 		if n := x.LiveThreads(); n != 0 {
 			return fmt.Errorf("threads-left: stop returned but %d threads are still alive: %s", n, strings.Join(x.Parked(), "; "))
+		}
+		// once the stop sequence has returned the crawler does nothing more: no request is sent, none is still open
+		// (the WARC output is closed by then: a later exchange has nowhere to be recorded)
+		for _, f := range w.Log {
+			if f.Start > o.stopStep {
+				return fmt.Errorf("request-after-stop: %s (attempt %d) was requested at step %d, after the stop sequence had returned (step %d)", f.URL, f.Attempt, f.Start, o.stopStep)
+			}
+			if f.End > o.stopStep || f.End < 0 {
+				return fmt.Errorf("exchange-open-after-stop: the exchange of %s (attempt %d) was still open when the stop sequence returned (step %d)", f.URL, f.Attempt, o.stopStep)
+			}
 		}
 		// a seed reported finished around the stop must still have its whole tree done (it is deleted
 		// from the queue: anything pending would be lost for good)
@@ -283,6 +341,10 @@ func scenarios(tier string) []scen {
 	// a page whose outlinks are being fed downstream when the pause and then the stop come
 	for _, paused := range []bool{false, true} {
 		out = append(out, scen{Opt: world.Options{Workers: 1, MaxConcurrentAssets: 1}, Seeds: 1, Paused: paused, Anchors: true, P: P + 1})
+	}
+	// the pause comes while a worker is inside the fetching of a page and its assets
+	for _, limiter := range []bool{false, true} {
+		out = append(out, scen{Opt: world.Options{Workers: 1, MaxConcurrentAssets: 2, RateLimit: limiter}, Seeds: 1, Paused: true, PauseAny: true, P: P + 1})
 	}
 	// a source that is slow to take finished seeds: the finisher blocks on its hand-over while the stop comes
 	out = append(out, scen{Opt: world.Options{Workers: 1, MaxConcurrentAssets: 1, SlowSourceMs: 5000}, Seeds: 4, P: P})
